@@ -5,6 +5,7 @@ import (
 	"bufio"
 	"bytes"
 	"crypto/md5"
+	"encoding/binary"
 	"encoding/json"
 	"fmt"
 	"io"
@@ -33,6 +34,26 @@ type reply struct {
 
 // evalCase runs one case in-process (inside the worker).
 func evalCase(c Case) reply {
+	var files map[string][]byte
+	var decls []decl
+	var slice uint64
+	data := map[string][]byte{}
+	if c.Format == "par2" {
+		files, slice, decls = BuildPAR2(c.Muts)
+		for i, n := range p2names {
+			data[n] = p2data(i)
+		}
+	} else {
+		files, decls = BuildPAR1(c.Muts)
+		for i, n := range p1names {
+			data[n] = p1data(i)
+		}
+	}
+	return evalFiles(c.Format, files, slice, decls, data, c.DataPresent, c.Conformant, len(c.Muts)%2 == 0)
+}
+
+// evalFiles writes the archive files and the data-file state into a fresh directory, runs Verify and Repair and applies the oracle.
+func evalFiles(format string, files map[string][]byte, slice uint64, decls []decl, data map[string][]byte, dataPresent int, conformant, doubleCheck bool) reply {
 	root := ""
 	if base := os.Getenv("VERIF_C19_SCRATCH"); base != "" {
 		// the parent owns (and removes) the scratch area, so nothing is left behind when this worker dies
@@ -43,24 +64,15 @@ func evalCase(c Case) reply {
 	}
 	defer os.RemoveAll(root)
 	dir := filepath.Join(root, "w")
-	var files map[string][]byte
-	var decls []decl
-	var slice uint64
-	var idx string
-	data := map[string][]byte{}
-	if c.Format == "par2" {
-		files, slice, decls = BuildPAR2(c.Muts)
-		idx = filepath.Join(dir, "set.par2")
-		for i, n := range p2names {
-			data[n] = p2data(i)
-		}
-	} else {
-		files, decls = BuildPAR1(c.Muts)
+	idx := filepath.Join(dir, "set.par2")
+	if format != "par2" {
 		idx = filepath.Join(dir, "set.par")
-		for i, n := range p1names {
-			data[n] = p1data(i)
-		}
 	}
+	c := struct {
+		Format      string
+		DataPresent int
+		Conformant  bool
+	}{format, dataPresent, conformant}
 	fsx.WriteTree(dir, files)
 	os.MkdirAll(filepath.Join(dir, "sub"), 0o755)
 	i := 0
@@ -93,10 +105,10 @@ func evalCase(c Case) reply {
 	pan, pmsg := run.Safe(func() {
 		if c.Format == "par2" {
 			vr2, verr2 = par2.Verify(idx, par2.VerifyOptions{NumGoroutines: 1})
-			par2.Repair(idx, par2.RepairOptions{NumGoroutines: 1, DoubleCheck: len(c.Muts)%2 == 0})
+			par2.Repair(idx, par2.RepairOptions{NumGoroutines: 1, DoubleCheck: doubleCheck})
 		} else {
 			par1.Verify(idx, par1.VerifyOptions{VerifyAllData: true})
-			par1.Repair(idx, par1.RepairOptions{DoubleCheck: len(c.Muts)%2 == 0})
+			par1.Repair(idx, par1.RepairOptions{DoubleCheck: doubleCheck})
 		}
 	})
 	runtime.ReadMemStats(&ms1)
@@ -105,23 +117,40 @@ func evalCase(c Case) reply {
 		msg = "panic: " + pmsg
 	}
 	if msg == "" && c.Format == "par2" && verr2 == nil {
-		// a returned result is truthful with respect to what the archive itself holds
-		exps := map[uint32]bool{}
-		var setID [16]byte
-		if ps := par2ref.ScanTolerant(files["set.par2"]); len(ps) > 0 {
-			setID = ps[0].SetID
+		// a returned result is truthful with respect to what the archive itself holds: for the recovery set whose main
+		// packet(s) declare slice size S, the distinct exponents of its valid recovery packets with S bytes of data
+		// (any file; the largest such count over the recovery sets present is an upper bound for what can be usable)
+		type setInfo struct {
+			slices map[uint64]bool
+			recv   []par2ref.Parsed
 		}
-		for n, b := range files {
-			if n == "set.par2" {
-				continue
-			}
+		sets := map[[16]byte]*setInfo{}
+		for _, b := range files {
 			for _, p := range par2ref.ScanTolerant(b) {
-				if p.Type == par2ref.TypeRecvSlic && p.SetID == setID {
-					e, d, _ := par2ref.ParseRecovery(p.Body)
-					if uint64(len(d)) == slice && e < 65536 {
-						exps[e] = true
-					}
+				si := sets[p.SetID]
+				if si == nil {
+					si = &setInfo{slices: map[uint64]bool{}}
+					sets[p.SetID] = si
 				}
+				if p.Type == par2ref.TypeMain && len(p.Body) >= 8 {
+					si.slices[binary.LittleEndian.Uint64(p.Body)] = true
+				}
+				if p.Type == par2ref.TypeRecvSlic {
+					si.recv = append(si.recv, p)
+				}
+			}
+		}
+		exps := map[uint32]bool{}
+		for _, si := range sets {
+			e1 := map[uint32]bool{}
+			for _, p := range si.recv {
+				e, d, _ := par2ref.ParseRecovery(p.Body)
+				if si.slices[uint64(len(d))] && e < 65536 {
+					e1[e] = true
+				}
+			}
+			if len(e1) > len(exps) {
+				exps = e1
 			}
 		}
 		if vr2.ShardCounts.UsableParityShardCount > len(exps) {
@@ -436,6 +465,9 @@ func TestCheck(t *testing.T) {
 		return true
 	}
 	if cfg.Replay != "" {
+		if rec.ReplayFuzz(cfg.Replay, fuzzOracles) {
+			return
+		}
 		var c Case
 		if _, err := run.LoadReplay(cfg.Replay, &c); err != nil {
 			t.Fatal(err)
@@ -444,6 +476,9 @@ func TestCheck(t *testing.T) {
 		return
 	}
 	for _, f := range cfg.RegressFiles() {
+		if cfg.Shard == 0 && rec.ReplayFuzz(f, fuzzOracles) {
+			continue
+		}
 		var c Case
 		if _, err := run.LoadReplay(f, &c); err == nil && cfg.Shard == 0 {
 			do(c)
